@@ -145,6 +145,11 @@ func abstraction(k kind, c content, conc cty.Value) cty.Value {
 		n := vf.Concretize(vf.Choice(len(c.s1) + 1))
 		return cty.UnknownVal(ty).Refine().NotNull().StringPrefixFull(c.s1[:n]).NewValue()
 	case kNum:
+		if vf.Concretize(vf.Choice(2)) == 1 {
+			// an exclusive lower bound; the concrete content must satisfy it
+			vf.Assume(conc.GreaterThan(cty.NumberIntVal(1)).True())
+			return cty.UnknownVal(ty).Refine().NotNull().NumberRangeLowerBound(cty.NumberIntVal(1), false).NewValue()
+		}
 		return cty.UnknownVal(ty).Refine().NotNull().NumberRangeLowerBound(cty.NumberIntVal(0), true).NumberRangeUpperBound(cty.NumberIntVal(2), true).NewValue()
 	case kList, kMap:
 		return cty.UnknownVal(ty).Refine().NotNull().CollectionLengthLowerBound(1).CollectionLengthUpperBound(2).NewValue()
@@ -170,8 +175,8 @@ func H_Unknown() {
 	}
 	e := parse(sh.src)
 	vf.Observe("shape", i)
-	ra, da := e.Value(scope(abs))
-	rc, dc := e.Value(scope(conc))
+	ra, da := e.Value(scopeU(abs, cty.UnknownVal(cty.Bool)))
+	rc, dc := e.Value(scopeU(conc, cty.BoolVal(c.u)))
 	if !dc.HasErrors() {
 		vf.Assert(rc.IsWhollyKnown(), "known-inputs-give-known-result: "+sh.src)
 	}
